@@ -275,11 +275,16 @@ def run(tier, seed, replay=None):
                      'theorem': 'C07_tostring_guarded instance'}, nofail=True)
     # ---------------- non-string constants (exploration)
     nonstr = 0
-    for val in [0, 1, -5, 10 ** 20, 1.5, -0.25, True, False, None, dt.date(2020, 1, 2), dt.datetime(2020, 1, 2, 3, 4, 5)]:
+    for val, tmpl_ in [(v_, t_) for v_ in [0, 1, -5, 10 ** 20, 1.5, -0.25, True, False, None, dt.date(2020, 1, 2), dt.datetime(2020, 1, 2, 3, 4, 5),
+                                           dt.datetime(2021, 3, 4, 5, 6, 7, 123456), dt.datetime(1999, 12, 31, 23, 59, 59, 999999),
+                                           dt.datetime(2021, 3, 4, 5, 6, 7, 250000), dt.datetime(2021, 3, 4, 0, 0, 0, 1), dt.date(1, 1, 1),
+                                           dt.datetime(9999, 12, 31, 23, 59, 59, 999999), 0.1 + 0.2, 1e-7, 123456789.123456789]
+                       for t_ in (["select 'X7X'"] + ([t for _, t in TEMPLATES] if isinstance(v_, (dt.date, dt.datetime)) else []))]:
         for target in TARGETS:
             try:
-                a = parse_sql("select 'X7X'", 'mindsdb')
-                set_constant(a, val)
+                a = parse_sql(tmpl_.replace(PLACEHOLDER, 'X7X') if PLACEHOLDER in tmpl_ else tmpl_, 'mindsdb')
+                if set_constant(a, val) != 1 and val is not None:
+                    continue
                 if val is None:
                     from mindsdb_sql.parser.ast import NullConstant
                     a.targets[0] = NullConstant()
@@ -287,7 +292,9 @@ def run(tier, seed, replay=None):
                 nonstr += 1
                 body = t[len('SELECT '):].strip()
                 if isinstance(val, (dt.date, dt.datetime)):
-                    ok = body.startswith("'") and body.count("'") == 2 and str(val) in body
+                    # exactly one quoted literal in the whole statement, and it is the value written in full
+                    lits_ = [l_ for l_ in re.findall(r"'([^']*)'", t) if re.match(r'\d{1,4}-\d\d-\d\d', l_)]
+                    ok = lits_ == [str(val)]
                 else:
                     ok = "'" not in body and '\\' not in body
                 if not ok:
